@@ -28,7 +28,7 @@ func (h *ServerHandler) VerifCapture(out *[]VerifCommand) {
 func (h *ServerHandler) VerifC10Modes() (quiet, plain, serverless bool) {
 	return h.quiet, h.plain, h.serverless
 }
-func (h *ServerHandler) VerifC10ServerMessages() chan string  { return h.serverMessages }
-func (h *ServerHandler) VerifC10Lines() chan *line.Line       { return h.lines }
-func (h *ServerHandler) VerifC10MaprMessages() chan string    { return h.maprMessages }
-func (h *ServerHandler) VerifC10Active() int32                { return h.activeCommands }
+func (h *ServerHandler) VerifC10ServerMessages() chan string { return h.serverMessages }
+func (h *ServerHandler) VerifC10Lines() chan *line.Line      { return h.lines }
+func (h *ServerHandler) VerifC10MaprMessages() chan string   { return h.maprMessages }
+func (h *ServerHandler) VerifC10Active() int32               { return h.activeCommands }
